@@ -191,7 +191,7 @@ func streamAccessors(g *core.G) {
 	r := g.R
 	n := g.N(300, 20000)
 	people := []string{"A B <a@b>", "Jane Doe <jane@example.org>", "Debian QA Group <packages@qa.debian.org>", "", "x"}
-	names := []string{"foo_1.0.orig.tar.gz", "foo_1.0-1.debian.tar.xz", "foo_1.0-1.dsc", "foo_1.0-1.diff.gz", "x.debian.", ".debian.tar", "a", "foo_1.0.tar.gz", "bar_2.dsc",
+	names := []string{"foo_1.0.orig.tar.gz", "foo_1.0-1.debian.tar.xz", "foo_1.0-1.dsc", "foo_1.0-1.diff.gz", "x.debian.", ".debian.tar", "foo_1.0.debian", "foo.debianized.tar.gz", "debian.tar.xz", "a", "foo_1.0.tar.gz", "bar_2.dsc",
 		"../outside", "sub/inner.dsc", "/abs/name", ".", "..", "", "a/", "./a", "a//b", ".dsc"}
 	cwd, _ := os.Getwd()
 	dirs := []string{"/srv/incoming", "/srv/incoming/", "/", "/a/b/../c", "/a/./b", "rel/dir", ".", "", "/srv//x", "../up", "/a/b/..", "/.."}
